@@ -323,8 +323,8 @@ func parseAnsiCode(s string) (int, string) {
 	var i int
 	// Faster than strings.IndexAny(";:")
 	i = strings.IndexByte(s, ';')
-	if i < 0 {
-		i = strings.IndexByte(s, ':')
+	if j := strings.IndexByte(s, ':'); j >= 0 && (i < 0 || j < i) {
+		i = j
 	}
 	if i >= 0 {
 		remaining = s[i+1:]
